@@ -127,6 +127,24 @@ Proof.
   - exact (wr_frag r Wr).
 Qed.
 
+Lemma ea_transform b r : wf_base_ea b -> wf_ref r ->
+  transform (uri_ea b) (uri_of r) = Some (uri_ea (navigate_rel b r)).
+Proof.
+  intros W Wr. pose proof (navigate_rel_ea_wf b r W Wr) as Wn.
+  destruct W as [Wb (s & rest & Hp)].
+  destruct (ea_facts b Wb) as (segs & Hp' & Hs & Hpt & Tb & Ub).
+  rewrite Hp in Hp'. inversion Hp'; subst segs. clear Hp'.
+  destruct (ea_facts _ Wn) as (nsegs & Hnp & _ & Hnpt & Tn & Un).
+  destruct (ref_facts r Wr) as (Hur & Tr & Ur).
+  unfold uri_ea at 1. rewrite Hpt, Hur, (transform_parts _ _ _ _ _ _ _ _ Hs (wr_segs r Wr)).
+  f_equal. unfold uri_ea. rewrite Hnpt.
+  rewrite (navigate_rel_ea b r s rest (conj Wb (ex_intro _ s (ex_intro _ rest Hp))) Wr Hp) in *.
+  cbn [u_scheme u_path u_query u_frag] in *. rewrite <- join_rooted, <- Hnp.
+  unfold nav_query. destruct (u_path r) as [|x rr].
+  - rewrite (query_opt_or _ _ (wr_query r Wr)). reflexivity.
+  - destruct x; [destruct rr; [rewrite (query_opt_or _ _ (wr_query r Wr))|]|]; reflexivity.
+Qed.
+
 Theorem navigate_empty_authority b r : wf_base_ea b -> wf_ref r ->
   spec_navigate_strict (to_text b) (to_text r) (to_text (navigate_rel b r)) = true.
 Proof.
